@@ -122,8 +122,7 @@ Proof.
   destruct W1 as ((N1 & D1 & H1) & St1 & _).
   assert (Hu1 : unique_labels s1) by (unfold unique_labels; rewrite St1; exact Hu).
   assert (Hsp1 : single_producer s1).
-  { intros f l1 l2 A B. unfold file_sinks_of_step, sinks_of in A, B. rewrite D1 in A, B.
-    exact (Hsp f l1 l2 A B). }
+  { apply (single_producer_same_graph s s1); [repeat split; assumption|exact Hsp]. }
   destruct (tail_marks _ _ _ s1 s2 s3 s' Hsp1 E2 E3 H) as [M C].
   pose proof (KexP_Mk_Cl (fun _ => False) s1 s' Hu1 M C K1) as K4.
   assert (Hu4 : unique_labels s').
